@@ -25,6 +25,11 @@ CLAIMS["C14"] = dict(
    text="Decides for every argument vector (all paths of the code, not one TZ/locale run) that the only wall-clock reads are Utc::now feeding the current_timestamp template variable or bumped_timestamp under dirty == Some(true); that no chrono zone other than Utc is instantiated anywhere; that hashers have fixed keys and no randomly ordered collection is iterated; that no environment variable is read in the pipelines and current_dir() is used only when no directory was given or to absolutise a relative path; no threads, no mutable statics. These are the code-shape causes of environment dependence; git's own environment dependence is outside the Rust source and is not decided.",
    note="Trusted: rustc MIR/trait resolution and type printing, zfacts. Assumes dependencies do not consult clock/TZ/env except through the visible calls.",
    ref="4/C14")
+CLAIMS["C13"] = dict(
+   technique="whole-program panic-site inventory over the MIR call graph (dyn fan-out, address-taken functions, generic dispatch into local trait impls) with per-site discharge by dominating-guard / provenance / path-sensitive arguments, plus who-may-call and dominance rules for stdout, exit and git error handling",
+   text="Decides the code-shape part of 'never panics, never prints a result on failure': every reachable panic-capable construct (Assert terminators, unwrap/expect, explicit panics, byte/usize indexing, truncate, run-time fmt width, chrono Display) is discharged by a machine-checked argument on the current MIR or reported with its call path; stdout is touched only in run(); each write in run_with_args is dominated by the success edge of the pipeline whose payload it prints; the error arm prints to stderr and exits non-zero; tracing writes to stderr; every git invocation result is propagated or handled. This covers all argument vectors and all git failure points at once (the git layer is never executed by the offline suite). Panics inside dependencies and allocation failure are not decided.",
+   note="Trusted: rustc MIR/trait resolution, zfacts, the recogniser library (rules/panics.py) and the 12-entry audited table whose structural requires are re-checked each run. Assumes dependencies honour their documented panic contracts.",
+   ref="4/C13")
 REASONS = {}
 
 def main():
